@@ -300,7 +300,11 @@ func (eapAkaPrime *EapAkaPrime) Unmarshal(rawData []byte) error {
 			attr.reserved = valBitsLen
 
 			valBytesLen := valBitsLen / 8
-			totalLen := uint16(attr.length * 4)
+			totalLen := uint16(attr.length) * 4
+			if totalLen < valBytesLen+EapAkaAttrTypeLen+EapAkaAttrLengthLen+EapAkaAttrReservedLen {
+				return errors.Errorf("EAP-AKA' Unmarshal(): %s attribute value of %d bits does not fit the attribute length %d",
+					attr.attrType, valBitsLen, attr.length)
+			}
 			paddingLen := totalLen - valBytesLen - EapAkaAttrTypeLen - EapAkaAttrLengthLen - EapAkaAttrReservedLen
 
 			attr.value = make([]byte, valBytesLen)
